@@ -804,12 +804,17 @@ where
         let back_edges = self.compute_back_edges(head)?;
 
         // Build a graph without back edges, a.k.a. forward edges (FE) graph.
+        // Vertices unreachable from head are not part of the flow graph.
+        let reachable = self.reachable_vertices(head)?;
         let mut fe_graph = Graph::new();
-        for index in self.vertices.keys() {
+        for index in self.vertices.keys().filter(|index| reachable.contains(index)) {
             fe_graph.insert_vertex(NullVertex::new(*index))?;
         }
         for edge in self.edges.keys() {
-            if !back_edges.contains(edge) {
+            if !back_edges.contains(edge)
+                && reachable.contains(&edge.0)
+                && reachable.contains(&edge.1)
+            {
                 fe_graph.insert_edge(NullEdge::new(edge.0, edge.1))?;
             }
         }
